@@ -811,7 +811,7 @@ def defaultImplOf (c : Case) : Option DefaultImpl :=
 /-- the text `{:?}` prints for the value the structured `DefaultImpl` denotes -/
 def defValText : DefVal → String
   | .dflt _ => "V(-7)"
-  | .raw e => ((defaultValuePool.find? fun (t, _, _) => t == e).map (·.2.2)).getD "?"
+  | .raw e _ => ((defaultValuePool.find? fun (t, _, _) => t == e).map (·.2.2)).getD "?"
   | .into _ e => ((defaultValuePool.find? fun (t, _, _) => t == e).map (·.2.2)).getD "?"
 
 def defaultRunProgram (c : Case) (modName : String) : String × List String :=
